@@ -19,9 +19,47 @@ theorem Inv.notLink {w : World} {dir : Path} (I : Inv w dir) (nm : String) :
   | none => rfl
   | some n => simp [isLink, I.files nm n hf]
 
+theorem insertDesc_perm (a : String) : ∀ l : List String, (insertDesc a l).Perm (a :: l)
+  | [] => List.Perm.refl _
+  | b :: l => by
+    unfold insertDesc
+    split
+    · exact List.Perm.refl _
+    · exact ((insertDesc_perm a l).cons b).trans (List.Perm.swap a b l)
+
+theorem sortDesc_perm : ∀ l : List String, (sortDesc l).Perm l
+  | [] => List.Perm.refl _
+  | a :: l => (insertDesc_perm a (sortDesc l)).trans ((sortDesc_perm l).cons a)
+
+theorem insertDesc_sorted (a : String) : ∀ l : List String, l.Pairwise (fun x y => y ≤ x) →
+    (insertDesc a l).Pairwise (fun x y => y ≤ x)
+  | [], _ => by simp [insertDesc]
+  | b :: l, h => by
+    unfold insertDesc
+    have hb := List.pairwise_cons.mp h
+    split
+    · rename_i hba
+      refine List.pairwise_cons.mpr ⟨fun y hy => ?_, h⟩
+      rcases List.mem_cons.mp hy with e | e
+      · rw [e]; exact hba
+      · exact String.le_trans (hb.1 y e) hba
+    · rename_i hba
+      have hab : a ≤ b := by
+        rcases String.le_total a b with x | x
+        · exact x
+        · exact absurd x hba
+      refine List.pairwise_cons.mpr ⟨fun y hy => ?_, insertDesc_sorted a l hb.2⟩
+      rcases List.mem_cons.mp ((insertDesc_perm a l).mem_iff.mp hy) with e | e
+      · rw [e]; exact hab
+      · exact hb.1 y e
+
+theorem sortDesc_sorted : ∀ l : List String, (sortDesc l).Pairwise (fun x y => y ≤ x)
+  | [] => by simp [sortDesc]
+  | a :: l => insertDesc_sorted a _ (sortDesc_sorted l)
+
 /-- the sorted list of cache-file names -/
 def cacheList (w : World) (dir : Path) : List String :=
-  ((childNames w dir).filter isCacheName).mergeSort fun a b => decide (b ≤ a)
+  sortDesc ((childNames w dir).filter isCacheName)
 
 theorem listCacheFiles_eq {w : World} {dir : Path} (I : Inv w dir) :
     listCacheFiles w dir = .ok (cacheList w dir) := by
@@ -42,20 +80,15 @@ theorem listCacheFiles_eq {w : World} {dir : Path} (I : Inv w dir) :
 theorem mem_cacheList (w : World) (dir : Path) (nm : String) :
     nm ∈ cacheList w dir ↔ isCacheName nm = true ∧ (find w (dir ++ [nm])).isSome = true := by
   unfold cacheList
-  rw [List.mem_mergeSort, List.mem_filter, mem_childNames]
+  rw [(sortDesc_perm _).mem_iff, List.mem_filter, mem_childNames]
   exact And.comm
 
 theorem nodup_cacheList (w : World) (dir : Path) : (cacheList w dir).Nodup := by
   unfold cacheList
-  exact (List.mergeSort_perm _ _).symm.nodup (List.filter_sublist.nodup (nodup_childNames w dir))
+  exact (sortDesc_perm _).symm.nodup (List.filter_sublist.nodup (nodup_childNames w dir))
 
-theorem sorted_cacheList (w : World) (dir : Path) : (cacheList w dir).Pairwise fun a b => b ≤ a := by
-  unfold cacheList
-  have := List.pairwise_mergeSort (le := fun a b : String => decide (b ≤ a))
-    (fun a b c h1 h2 => by simp only [decide_eq_true_eq] at *; exact String.le_trans h2 h1)
-    (fun a b => by simp only [Bool.or_eq_true, decide_eq_true_eq]; exact (String.le_total b a))
-    ((childNames w dir).filter isCacheName)
-  exact this.imp (by intro a b h; simpa using h)
+theorem sorted_cacheList (w : World) (dir : Path) : (cacheList w dir).Pairwise fun a b => b ≤ a :=
+  sortDesc_sorted _
 
 /-- `readParse` of a present cache file: parse of its bytes -/
 theorem readParse_entry (P : Params) {w : World} {dir : Path} (I : Inv w dir) (nm : String)
